@@ -96,7 +96,13 @@ func genServerRoleInput(c *Chooser) c06input {
 		m := []string{"GET", "POST", "x-socketace", "X-SOCKETACE2", ""}[c.Pick(5, "method")]
 		return c06input{Class: "INVALID", Kind: "wrong-announce-method", Bytes: []byte(genAnnounce(c, c06Version, m) + validU())}
 	case 6:
-		v := []string{"", "v1.0.0", "v2.0.1", "v2.0.0x", "V2.0.0", "v1, v3"}[c.Pick(6, "bad-version")]
+		// unsupported versions and near-misses of the supported one: the list is comma-separated, an entry
+		// counts only if it equals the supported version after trimming blanks
+		bad := []string{"", "v1.0.0", "v2.0.1", "v2.0.0x", "V2.0.0", "v1, v3",
+			c06Version + " beta", "v1.0.0 " + c06Version, "v3.0.0, experimental " + c06Version, c06Version + "\tdraft, v1.0.0",
+			c06Version + ";q=1", "x" + c06Version, "socketace/" + c06Version, c06Version + ".", c06Version + "-rc1", c06Version[:len(c06Version)-2],
+			"\"" + c06Version + "\"", c06Version + " " + c06Version, "v1.0.0;" + c06Version, c06Version[1:]}
+		v := bad[c.Pick(len(bad), "bad-version")]
 		return c06input{Class: "INVALID", Kind: "unsupported-version", Bytes: []byte(genAnnounce(c, v, "X-SOCKETACE") + validU())}
 	case 7:
 		m := []string{"POST", "X-SOCKETACE", "get"}[c.Pick(3, "method")]
